@@ -325,7 +325,7 @@ package workflow
 // declarations and constraints, equal to the original's at the time of the copy: resolving the template expressions of
 // one generated role in place never shows through in another.
 //@ func (r *roleBase) copy() (c copyable)
-//@   property C13
+//@   property C13 C14 C15
 //@   requires r != nil
 //@   ensures c is *roleBase && fresh(c.(*roleBase))
 //@   ensures len(c.(*roleBase).Connect) == old(len(r.Connect)) && fresh(c.(*roleBase).Connect)
@@ -333,6 +333,11 @@ package workflow
 //@   ensures len(c.(*roleBase).Bind) == old(len(r.Bind)) && fresh(c.(*roleBase).Bind)
 //@   ensures forall i int :: 0 <= i && i < old(len(r.Bind)) ==> c.(*roleBase).Bind[i] == old(r.Bind[i])
 //@   ensures len(c.(*roleBase).Constraints) == old(len(r.Constraints)) && fresh(c.(*roleBase).Constraints)
+// C14 (the definition nearest to a role wins): every role generated from a template has variable maps of its own - a value
+// written at one generated role (a call's return variable, a runtime variable) must not appear at its siblings
+//@   [C14] ensures old(r.UserVars) != nil ==> fresh(c.(*roleBase).UserVars)
+//@   [C14] ensures old(r.Vars) != nil ==> fresh(c.(*roleBase).Vars)
+//@   [C14] ensures old(r.Defaults) != nil ==> fresh(c.(*roleBase).Defaults)
 
 // ---------------------------------------------------------------------------------------------------------
 // C15: loading a workflow. Children processed in goroutines write only their own slot / their own role; what they share
@@ -582,3 +587,34 @@ package workflow
 //@ lemma inv11_holds_initially C11:
 //@     forall roles []Role ::
 //@         len(roles) == 1 && roles[0] is *taskRole && roles[0].(*taskRole) != nil && !roles[0].(*taskRole).Critical && roleState(roles[0]) == sm.STANDBY ==> foldState(roles, 1) == sm.STANDBY
+
+// ---------------------------------------------------------------------------------------------------------
+// C09 (only critical hook failures affect a transition): a call role instantiated from a template is as critical as its
+// declaration says - the copy carries the whole Traits (trigger, await, timeout, critical) of the original.
+//@ func (t *callRole) copy() (c copyable)
+//@   property C09
+//@   requires t != nil
+//@   ghostvar set bool = false
+//@   on store workflow.callRole.Traits : assert value == t.Traits ; set = true
+//@   ensures set
+
+// C11 (a role's status is the fold of ALL its descendants): a status update of a call role is merged and handed to the
+// parent whatever the role's criticality - criticality filters states, not statuses.
+//@ func (t *callRole) updateStatus(s task.Status)
+//@   property C11
+//@   requires t != nil && task.validStatus(s)
+//@   ghostvar merged bool = false
+//@   ghostvar forwarded bool = false
+//@   on call (*SafeStatus).merge : assert arg1 == s && !merged ; merged = true
+//@   on call .updateStatus : assert merged && arg0 == s && !forwarded ; forwarded = true
+//@   ensures merged && forwarded
+
+// C05 (constraints of nested roles: the nearest definition of an attribute wins): the role's own constraints are the
+// receiver of the merge, what the enclosing roles say is the parent argument.
+//@ func (r *roleBase) getConstraints() (cts constraint.Constraints)
+//@   property C05
+//@   opt callee-requires=assume
+//@   ghostvar got bool = false
+//@   ghostvar pc constraint.Constraints = nil
+//@   on aftercall .getConstraints : pc = result ; got = true
+//@   on call (constraint.Constraints).MergeParent : assert got && arg1 == pc && fresh(arg0)
